@@ -128,12 +128,63 @@ def describe(a):
     return None if a is None else {'type': type(a).__name__, 'dtype': str(a.dtype), 'shape': list(a.shape)}
 
 
+def run_rfm_level(p):
+    """Leaf-level format restoration (`RFM.validate_samples` / `convert_to_format`): a leaf model used directly returns a
+    NumPy array for NumPy samples and a tensor for tensor samples, with the same values, whatever the number of internal
+    prediction blocks (`max_batch_size`)."""
+    import numpy as np
+    import torch
+    from xrfm.rfm_src import RFM
+    res = {'family': p['family'], 'params': p, 'disagreements': [], 'failures': [], 'dist': {}}
+    data = xc.make_data(p['dseed'], p['n'], p['d'], p['task'])
+    torch.manual_seed(p['seed'])
+    with contextlib.redirect_stdout(io.StringIO()), contextlib.redirect_stderr(io.StringIO()):
+        model = RFM(**dict(xc.KERNELS[p['kernel']], bandwidth=5.0, diag=p['diag'], bandwidth_mode='constant'), device='cpu', verbose=False,
+                    tuning_metric='mse')
+        fit_in = (lambda t: t.numpy().copy()) if p['fit_container'] == 'ndarray' else (lambda t: t)
+        model.fit((fit_in(data['X']), fit_in(data['y'])), (fit_in(data['Xv']), fit_in(data['yv'])), iters=p['iters'], reg=1e-3, verbose=False,
+                  early_stop_rfm=False)
+        Xq = data['Xt']
+        ref = model.predict(Xq)
+    nq = Xq.shape[0]
+    seen = 0
+    for container in ('tensor', 'ndarray'):
+        for mbs in (None, 7, max(1, nq // 2), nq, nq + 5):
+            q = Xq.clone() if container == 'tensor' else Xq.numpy().copy()
+            try:
+                with contextlib.redirect_stdout(io.StringIO()), contextlib.redirect_stderr(io.StringIO()):
+                    out = model.predict(q) if mbs is None else model.predict(q, max_batch_size=mbs)
+            except Exception as e:  # noqa: BLE001
+                res['failures'].append({'signature': f'C20:raises:{type(e).__name__}', 'detail': f'RFM.predict({container}, max_batch_size={mbs}): {str(e)[:160]}'})
+                continue
+            want = torch.Tensor if container == 'tensor' else np.ndarray
+            tag = f'RFM.predict on a {container} of {nq} rows, max_batch_size={mbs}'
+            if not isinstance(out, want):
+                res['failures'].append({'signature': 'C20:output-format:rfm-predict', 'detail': f'{tag}: returned {type(out).__name__}, expected {want.__name__}'})
+                continue
+            a = out.detach().cpu().numpy() if isinstance(out, torch.Tensor) else out
+            b = ref.detach().cpu().numpy()
+            if a.shape != b.shape or a.dtype != b.dtype:
+                res['failures'].append({'signature': 'C20:output-format:rfm-predict', 'detail': f'{tag}: {describe(a)} vs {describe(b)} for a tensor in one block'})
+            elif not np.allclose(a, b, rtol=1e-5, atol=1e-6):
+                res['failures'].append({'signature': 'C20:prediction-differs:rfm-predict', 'detail': f'{tag}: values differ from the one-block tensor call by {float(np.abs(a - b).max()):.3e}'})
+            else:
+                seen += 1
+    res['nontrivial'] = [p['family'], p['kernel'], p['task'], p['dseed'], p['fit_container']] if seen else None
+    res['dist'] = {'logical': logical_of(p['task']), 'kernel': p['kernel'], 'rfm_level_calls': seen, 'fit_container': p['fit_container']}
+    res['sample'] = {'family': p['family'], 'kernel': p['kernel'], 'query_rows': nq, 'calls_equal': seen}
+    return res
+
+
 def execute(chunk):
     import numpy as np
     drv = core.Driver('C20')
     results = []
     try:
         for p in chunk['cases']:
+            if p['family'] == 'rfm-level-formats':
+                results.append(run_rfm_level(p))
+                continue
             res = {'family': p['family'], 'params': p, 'disagreements': [], 'failures': [], 'dist': {}}
             data = xc.make_data(p['dseed'], p['n'], p['d'], p['task'])
             logical = p['logical']
@@ -304,6 +355,11 @@ def gen_cases(run):
                     pm1=pm1 and task == 'bin', metric=['brier', 'accuracy', 'logloss'][k % 3])
         for part in core.chunks(combos, 4):
             cases.append(dict(base, reps=part))
+    # the leaf model used directly: output container follows the input container for every internal block size
+    for k in range(6 if quick else 48):
+        cases.append(dict(family='rfm-level-formats', task=['reg1', 'reg2'][k % 2], kernel=kernels[k % len(kernels)], diag=(k % 3 == 2),
+                          iters=k % 2, n=r.randint(20, 40), d=r.randint(2, 5), fit_container=['tensor', 'ndarray'][(k // 2) % 2],
+                          seed=r.randint(0, 10 ** 6), dseed=r.randint(0, 10 ** 6)))
     # outside the documented interface: observations + model comparison only
     outside = [
         ('reg1', {'x': ['tensor', 'float64'], 'y': ['tensor', 'float32', 'col'], 'q': ['tensor', 'float64']}),
@@ -344,7 +400,7 @@ def check(run):
         results = core.pmap(MOD, [{'cases': [c]} for c in cases])
         run.absorb('c20', results)
         run.extra['outside_interface_observations'] = [o for r_ in results for o in (r_.get('observations') or [])]
-        run.extra['fits'] = sum(len(c['reps']) + 1 for c in cases)
+        run.extra['fits'] = sum(len(c.get('reps', [])) + 1 for c in cases)
 
 
 def replay(run, payload):
